@@ -196,37 +196,27 @@ func expandAccess(c *Contract) error {
 	res := "result"
 	switch f[0] {
 	case "public":
-		return add(true, "", "Guarded")
+		return add(true, "", "AccPublic")
 	case "public-read":
-		if err := add(true, "", "!Guarded"); err != nil {
-			return err
-		}
-		return add(false, "access-read-only", "Eff == old(Eff)")
+		return add(true, "", "!AccPublic && !Guarded")
 	case "guarded":
-		if err := add(true, "", "!Guarded"); err != nil {
-			return err
-		}
 		allowed := map[string]bool{}
 		for _, p := range f[1:] {
 			allowed[p] = true
 		}
-		var conj []string
-		conj = append(conj, "Guarded", "GWho == CurCaller")
-		if !allowed["self"] {
-			conj = append(conj, "!GSelf")
+		b := func(x bool) string {
+			if x {
+				return "true"
+			}
+			return "false"
 		}
-		if !allowed["admin"] {
-			conj = append(conj, "!GAdmin")
-		}
-		if !allowed["specific"] {
-			conj = append(conj, "!GSpecific")
-		}
-		return add(false, "access-effects-only-after-guard", "Eff != old(Eff) ==> "+strings.Join(conj, " && "))
+		return add(true, "", fmt.Sprintf("!AccPublic && !Guarded && AllowSelf == %s && AllowAdmin == %s && AllowSpecific == %s",
+			b(allowed["self"]), b(allowed["admin"]), b(allowed["specific"])))
 	case "internal":
 		if len(f) < 2 {
 			return fmt.Errorf("access internal <constant> on %s", c.Key)
 		}
-		if err := add(true, "", "!Guarded"); err != nil {
+		if err := add(true, "", "!AccPublic && !Guarded && !AllowSelf && !AllowAdmin && !AllowSpecific"); err != nil {
 			return err
 		}
 		var alts []string
